@@ -202,16 +202,18 @@ def check_trig(fmt, xb, outs):
         d, N, rem = best
         if int(N) % 4 != int(k):
             return f"k = {k} but N mod 4 = {int(N) % 4}"
-        # "within 1 ULP (10 in float16)": lattice distance between RN(r + t) and RN(remainder), the
-        # ULP metric of this code base (C14)
+        # "within 1 ULP (10 in float16) of the remainder": the exact residual of the DOUBLE WORD r + t (not of its rounding to
+        # working precision, which would discard t altogether) in units of ulp(remainder)
         remq = Fraction(int(rem * mpmath.mpf(2) ** (emax + 3 * p)), 2 ** (emax + 3 * p))
-        a = fpx.round_ne(r + t, fmt)
         b = fpx.round_ne(remq, fmt)
-        w = fpx.FMT[fmt][2]
-        oa = -(a & ((1 << (w - 1)) - 1)) if a >> (w - 1) else a
-        ob = -(b & ((1 << (w - 1)) - 1)) if b >> (w - 1) else b
-        dist = abs(oa - ob)
+        db = fpx.decode(b, fmt)
+        if db[0] != "fin":
+            return None
+        ulp_rem = Fraction(2) ** max(db[3] + (db[2].bit_length() if db[2] else 0) - p, fpx.emin(fmt))
+        resid = abs(mpf_of(r + t) - rem)
+        dist_real = resid / mpf_of(ulp_rem)
         tol = 10 if fmt == "float16" else 1
+        dist = float(dist_real)
         if dist > tol:
             # The unchanged tree exceeds the bound in two situations only (both known findings, both at hard cases where the
             # remainder is c = log2(|x| / |remainder|) bits below x):
@@ -224,10 +226,10 @@ def check_trig(fmt, xb, outs):
             C0 = {"float16": 13.0, "float32": 125.5, "float64": 1021.5}[fmt]
             if math.log2(dist) <= c - C0:
                 return (f"remainder off by more than {tol} ULP where the multiword 2/pi is exhausted (log2 error <= cancellation bits - {C0}): "
-                        f"{dist} ULP at {c:.1f} cancellation bits")
+                        f"{dist:.4g} ULP at {c:.1f} cancellation bits")
             if dist <= 4 and c >= p + 24:
-                return (f"remainder off by at most 4 ULP under heavy cancellation (>= p + 24 bits): {dist} ULP at {c:.1f} cancellation bits")
-            return f"remainder off by more than {tol} ULP, not explained by cancellation: {dist} ULP at {c:.1f} cancellation bits"
+                return (f"remainder off by at most 4 ULP under heavy cancellation (>= p + 24 bits): {dist:.4g} ULP at {c:.1f} cancellation bits")
+            return f"remainder off by more than {tol} ULP, not explained by cancellation: {dist:.4g} ULP at {c:.1f} cancellation bits"
     return None
 
 
